@@ -77,6 +77,59 @@ fn trailer_ok(bytes: &[u8]) -> Result<(), String> {
     Ok(())
 }
 
+/// A built map whose TRAILING CHECKSUM has a chosen value (0, 1, 2^31,
+/// u32::MAX ...): the value of one key has 32 free bits (its 8 bytes stay 8
+/// bytes because bit 56 is set); the CRC is affine in those bits, so the bits
+/// are found by Gaussian elimination over GF(2) with the independent CRC.
+pub fn file_with_checksum(target: u32) -> Result<Vec<u8>, String> {
+    let build = |x: u32| -> Result<Vec<u8>, String> {
+        front::build(Front::RawInsert, (3, 3), &[(b"a".to_vec(), 7), (b"b".to_vec(), (1u64 << 56) | x as u64), (b"c".to_vec(), 9)])
+    };
+    let want_crc = target.wrapping_sub(0xA282_EAD8).rotate_left(15); // inverse of the mask
+    let crc_of = |x: u32| -> Result<u32, String> {
+        let b = build(x)?;
+        Ok(crate::crc::crc32c(&b[..b.len() - 4]))
+    };
+    let c0 = crc_of(0)?;
+    // columns d_i = crc(e_i) ^ crc(0); solve sum x_i d_i = want ^ c0
+    let mut rows: Vec<(u32, u32)> = vec![]; // (vector, combination of unit bits)
+    for i in 0..32 {
+        rows.push((crc_of(1 << i)? ^ c0, 1 << i));
+    }
+    let mut rhs = want_crc ^ c0;
+    let mut x = 0u32;
+    let mut basis: Vec<(u32, u32)> = vec![];
+    for (mut v, mut comb) in rows {
+        for (bv, bc) in &basis {
+            if v & (1 << bv.trailing_zeros()) != 0 {
+                v ^= bv;
+                comb ^= bc;
+            }
+        }
+        if v != 0 {
+            basis.push((v, comb));
+        }
+    }
+    for (bv, bc) in &basis {
+        if rhs & (1 << bv.trailing_zeros()) != 0 {
+            rhs ^= bv;
+            x ^= bc;
+        }
+    }
+    if rhs != 0 {
+        return Err(format!("machinery: no value gives the checksum {:#010x}", target));
+    }
+    let b = build(x)?;
+    let n = b.len();
+    if u32::from_le_bytes([b[n - 4], b[n - 3], b[n - 2], b[n - 1]]) != target && masked_crc32c(&b[..n - 4]) == target {
+        return Err(format!("the file whose reference checksum is {:#010x} carries another trailer", target));
+    }
+    if masked_crc32c(&b[..n - 4]) != target {
+        return Err("machinery: the solved file does not have the chosen reference checksum".into());
+    }
+    Ok(b)
+}
+
 /// Every single-byte mutant (255 values per position) and every burst.
 pub fn run_mutants(bytes: &[u8], bursts: bool) -> Result<u64, String> {
     let mut n = 0u64;
@@ -190,6 +243,11 @@ pub fn replay(case: &Value) -> Result<String, String> {
             let bytes = front::build(front_from(case["front"].as_str().unwrap()), geom_from(&case["geom"]), &kvs)?;
             trailer_ok(&bytes).map(|_| "trailer is the reference checksum".into())
         }
+        "checksum-value" => {
+            let b = file_with_checksum(case["target"].as_u64().unwrap() as u32)?;
+            trailer_ok(&b)?;
+            run_mutants(&b, false).map(|n| format!("verifies; {} mutants rejected", n))
+        }
         "sinkpolicy-large" => {
             use crate::sink::{Policy, ScriptSink};
             let kvs = super::c07::large_inputs().into_iter().find(|x| Some(x.0) == case["name"].as_str()).map(|x| x.1).ok_or("unknown input")?;
@@ -233,7 +291,7 @@ pub fn replay(case: &Value) -> Result<String, String> {
 pub fn plan(tier: Tier) -> Plan {
     let mut p = Plan::new("C08", "model_checking");
     let thorough = tier.thorough();
-    p.rule = "(a) every single-byte mutant (every position x all 255 other values) and every 2-4 byte burst (xor masks {01,80,ff} per byte) of every FST built from subsets of U_ab3 with <= 3 keys (thorough: <= 5) plus fan-out FSTs: 'opens and verify()==Ok' is the violation, also when a reader opened on the intact file is handed the mutant through map_data (9 of the 255 values per position); (b) the trailing 4 bytes of every builder output (all subsets of U_ab3/U_abc2/U_raw2 x patterns, fan-out families, single-key ladders giving every file length 37..4150 and 150 lengths around each of 2^13..2^17) equal an independent bitwise masked CRC-32C, and verify() passes at every start offset 1..15 from a 16-byte boundary; (c) through hook H3 every 2-cut and 3-cut of buffers of length 0..64 (3 contents) and cuts at 0,1,15,16,17,31,32,33 from either end for lengths up to 4096; non-trivial = mutants + chunkings with >= 2 non-empty chunks".into();
+    p.rule = "(a) every single-byte mutant (every position x all 255 other values) and every 2-4 byte burst (xor masks {01,80,ff} per byte) of every FST built from subsets of U_ab3 with <= 3 keys (thorough: <= 5) plus fan-out FSTs: 'opens and verify()==Ok' is the violation, also when a reader opened on the intact file is handed the mutant through map_data (9 of the 255 values per position); (b) the trailing 4 bytes of every builder output (all subsets of U_ab3/U_abc2/U_raw2 x patterns, fan-out families, single-key ladders giving every file length 37..4150 and 150 lengths around each of 2^13..2^17; built maps whose checksum VALUE is 0, 1, 2^31-1, 2^31, u32::MAX-1, u32::MAX, the mask constant, 0x0000ffff, 0xffff0000 - found by solving for 32 free value bits over GF(2)) equal an independent bitwise masked CRC-32C, and verify() passes at every start offset 1..15 from a 16-byte boundary; (c) through hook H3 every 2-cut and 3-cut of buffers of length 0..64 (3 contents) and cuts at 0,1,15,16,17,31,32,33 from either end for lengths up to 4096; non-trivial = mutants + chunkings with >= 2 non-empty chunks".into();
     p.assumptions = vec![
         "independent reference: bit-by-bit reflected CRC-32C (0x82F63B78), validated on the RFC 3720 vector, rotate-right-15 + 0xA282EAD8 mask".into(),
         "chunking by a sink: policy sinks (cap 1..16, Interrupted before every call) here; the full answer-schedule space is C07's".into(),
@@ -375,6 +433,25 @@ pub fn plan(tier: Tier) -> Plan {
             }
         }));
     }
+    // (b3) files whose checksum has a boundary VALUE
+    p.units.push(unit("files-with-chosen-checksum-values", "checksum values".into(), move |st, rep| {
+        for target in [0u32, 1, 0x7fff_ffff, 0x8000_0000, 0xffff_fffe, 0xffff_ffff, 0xA282_EAD8, 0x0000_ffff, 0xffff_0000] {
+            st.evals += 1;
+            st.states += 1;
+            st.count("chosen_checksum_files", 1);
+            let r = file_with_checksum(target).and_then(|b| {
+                trailer_ok(&b)?;
+                run_mutants(&b, false).map(|_| ())
+            });
+            if let Err(msg) = r {
+                if msg.starts_with("machinery") {
+                    eprintln!("{}", msg);
+                    std::process::exit(2);
+                }
+                rep.violation(format!("checksum value {:#010x}", target), msg, json!({"kind": "checksum-value", "target": target}));
+            }
+        }
+    }));
     // (b2) file lengths around powers of two from 8 KiB to 128 KiB (block-wise checksum code)
     for k in 13..=17u32 {
         p.units.push(unit("single-key-length-ladder-around-powers-of-two", format!("ladder around 2^{}", k), move |st, rep| {
